@@ -48,6 +48,9 @@ TRUSTED = ['hand-written model coq/Model/Construct.v tied to biom/table.py, biom
            'scipy coo->csr conversion sums duplicate entries and rejects out-of-range indices (modelled by its denotation)',
            'numpy astype(float) is value preserving for bool and for integers below 2**53',
            'extraction (ExtrOcamlBasic only) + ocaml/driver_tail.ml, cross-checked against vm_compute on a sample']
+from . import regen_uc as _regen_uc
+# py2v_uc: regenerate coq/Gen/UcGen.v (biom/parse.py parse_uc, the loop turn and the function) from the source first
+regenerate = _regen_uc.hook(TRUSTED, ['uc'], 'coq/Model/UcText.v + coq/Model/Construct.v', 'coq/Proofs/GenBridgeUcProofs.v')
 ASSUMPTIONS = ['list-of-row-dicts is keyed (0, column) (the first key component is ignored in row mode but drives the '
                'orientation heuristic; absolute row keys misread tall matrices)',
                'sparse inputs carry no duplicate entries except COO (which sums them)',
